@@ -1,5 +1,6 @@
 """C17 — faults propagate, handles are released, partial output is a clean prefix."""
 import builtins
+import gc
 import io
 import os
 import shutil
@@ -28,6 +29,27 @@ class DeviceError(OSError):
 
 EXC_TYPES = [ValueError, KeyError, CustomError, CustomBase, StopIteration, EndOfTable, DeviceError]
 TMP = os.path.join(lib.SCRATCH, "tmp_c17")
+
+# what a caller may hand over as a destination it owns ("caller buffer"): an in-memory buffer, or a file object the caller opened
+# itself - read/write and buffered, write-only and buffered, write-only and line-buffered (text) / unbuffered (binary: a raw
+# io.FileIO, every write() goes straight to the descriptor)
+DESTS = {False: ("mem", "file", "wfile", "linefile"), True: ("mem", "file", "wfile", "rawfile")}
+
+
+def open_dest(kind, binary):
+    """the caller's own destination object of the given kind"""
+    p = os.path.join(TMP, "caller.dat")
+    if kind == "mem":
+        return io.BytesIO() if binary else io.StringIO()
+    if kind == "file":
+        return open(p, "w+b" if binary else "w+")
+    if kind == "wfile":
+        return open(p, "wb" if binary else "w")
+    if kind == "linefile" and not binary:
+        return open(p, "w", buffering=1)
+    if kind == "rawfile" and binary:
+        return open(p, "wb", buffering=0)
+    raise ValueError("no destination kind %r for %s storage" % (kind, "binary" if binary else "text"))
 
 
 class Recorder:
@@ -117,10 +139,13 @@ class CHECK(Check):
     theorems = ["C17_write", "C17_clean_prefix", "C17_success_output", "C17_read"]
     rule = ("complete enumeration: files of n = 1..8 elements (quick: n in {1,2,3,5,8}) x fault position k in 0..n-1 or no fault x "
             "{read, write} x file family {register, block, section} x endpoint {path in a real temp directory, caller buffer / "
-            "in-memory content} x storage {text, binary} x exception object {ValueError, KeyError, custom Exception subclass} x {built with a message, built without arguments}. "
+            "in-memory content} x (writes to a caller buffer) kind of caller-owned destination {StringIO/BytesIO, file object opened "
+            "read-write, opened write-only, write-only and line-buffered (text) / unbuffered raw FileIO (binary)} x storage {text, binary} x exception object {ValueError, KeyError, custom Exception subclass} x {built with a message, built without arguments}. "
             "builtins.open and the adapter's StringIO/BytesIO are wrapped to record every handle the framework opens and its "
             "closed flag after the call; observed: identity of the exception at the call site, handles opened/closed, "
-            "buffer.closed / tell() / contents, bytes on disk after a failed write. non-trivial = a fault is injected; distinct = hash")
+            "buffer.closed (inside the caller's except block, on return, and again after the caller has dropped the exception and the "
+            "file object and a gc.collect() has run) / tell() / contents (for a caller-opened file: the bytes on disk after the caller's "
+            "own flush), bytes on disk after a failed write. non-trivial = a fault is injected; distinct = hash")
     exhaustive = True
     not_exhibited = ["descriptor-level release by the OS (Python-level closed flags are observed)"]
 
@@ -143,9 +168,23 @@ class CHECK(Check):
                                             behs.append([False, 2 + (i % 3)])
                                         else:
                                             behs.append([False, "R%d%s\n" % (i, "x" * (i % 3))])
-                                    yield {"fam": fam, "binary": binary, "read": is_read, "buffer": buf, "behs": behs}
+                                    case = {"fam": fam, "binary": binary, "read": is_read, "buffer": buf, "behs": behs}
+                                    if buf and not is_read:
+                                        # every kind of caller-owned destination, at every fault position
+                                        for dest in DESTS[binary]:
+                                            yield dict(case, dest=dest)
+                                    else:
+                                        yield case
 
     def impl(self, case):
+        # the objects of this case are the only thing the collection in _impl has to look at (a full collection costs ~9 ms otherwise)
+        gc.freeze()
+        try:
+            return self._impl(case)
+        finally:
+            gc.unfreeze()
+
+    def _impl(self, case):
         fam, binary = case["fam"], case["binary"]
         F = families.get(fam)
         excs = [t("injected %d" % i) for i, t in enumerate(EXC_TYPES)] + [t() for t in EXC_TYPES]   # with and without arguments
@@ -157,8 +196,12 @@ class CHECK(Check):
         shutil.rmtree(TMP, ignore_errors=True)
         os.makedirs(TMP)
         path = os.path.join(TMP, "f.dat")
-        raised = None
-        out = {}
+        out = {"raised": None}
+
+        def ident(e):
+            ids = [i for i, x in enumerate(excs) if x is e]
+            return ids[0] if ids else "other: %s %s" % (type(e).__name__, str(e)[:80])
+
         try:
             if case["read"]:
                 # content: n records, each "R.." so that register/block dispatch selects K
@@ -176,12 +219,11 @@ class CHECK(Check):
                         else:
                             FC.read(path if not case["buffer"] else content)
                     except BaseException as e:
-                        raised = e
+                        out["raised"] = ident(e)
                 out["fw_opened"] = len(rec.handles)
                 out["fw_closed"] = sum(1 for h in rec.handles if h.closed)
             else:
                 data = F["Data"](F["Default"](data="") if fam == "register" else K())
-                elems = []
                 if fam != "register":
                     # the container's first element is the first behaviour
                     for _ in range(n - 1):
@@ -190,30 +232,45 @@ class CHECK(Check):
                     for _ in range(n):
                         data.append(K())
                 f = FC(data)
-                buf = (io.BytesIO() if binary else io.StringIO()) if case["buffer"] else None
-                realfile = case["buffer"] and (len(case["behs"]) + (1 if binary else 0)) % 2 == 0
-                if realfile:
-                    # the caller-owned destination is a file object the caller opened (opened before the recorder starts, so it is
-                    # not counted as opened by the framework): the framework must leave it open, positioned after what it wrote
-                    buf = open(os.path.join(TMP, "caller.dat"), "w+b" if binary else "w+")
+                buf = dest = None
+                if case["buffer"]:
+                    # the caller-owned destination: an in-memory buffer or a file object the caller opened (before the recorder
+                    # starts, so it is not counted as opened by the framework): the framework must leave it open, positioned after
+                    # what it wrote. (replay files written before the destination kind was part of the case: the rule of that time)
+                    dest = case.get("dest") or ("file" if (n + (1 if binary else 0)) % 2 == 0 else "mem")
+                    buf = open_dest(dest, binary)
+                closed_seen = False
                 with Recorder() as rec:
                     try:
                         f.write(buf if case["buffer"] else path)
                     except BaseException as e:
-                        raised = e
+                        out["raised"] = ident(e)
+                        if case["buffer"]:
+                            closed_seen = buf.closed          # what the caller sees inside its except block
                 out["fw_opened"] = len(rec.handles)
                 out["fw_closed"] = sum(1 for h in rec.handles if h.closed)
                 if case["buffer"]:
-                    out["buf_closed"] = buf.closed
+                    closed_seen = closed_seen or buf.closed   # ... when the call has returned / the except block is left
+                    # ... and once the caller has let go of what the call left behind - the exception (its traceback keeps the
+                    # frames of the failed call, and whatever they hold, alive), the file object and its elements - and unreachable
+                    # objects have been reclaimed: "left open" is about the caller's handle, not about a moment
+                    del excs[:]
+                    f = data = None
+                    gc.collect()
+                    closed_seen = closed_seen or buf.closed
+                    out["buf_closed"] = closed_seen
                     if not buf.closed:
                         out["buf_pos"] = buf.tell()
-                        if realfile:
-                            buf.seek(0)
-                            v = buf.read()
-                            buf.close()
-                        else:
+                        if dest == "mem":
                             v = buf.getvalue()
-                        out["output"] = v.decode("latin-1") if binary else v
+                            v = v.decode("latin-1") if binary else v
+                        else:
+                            # the caller flushes its own handle; what the framework wrote through it is what is on disk then
+                            buf.flush()
+                            with open(os.path.join(TMP, "caller.dat"), "rb") as fh:
+                                v = fh.read().decode("latin-1")
+                        out["output"] = v
+                        buf.close()
                 else:
                     if os.path.exists(path):
                         with open(path, "rb") as fh:
@@ -222,11 +279,6 @@ class CHECK(Check):
                         out["output"] = "<the destination file does not exist>"
         finally:
             shutil.rmtree(TMP, ignore_errors=True)
-        if raised is None:
-            out["raised"] = None
-        else:
-            ids = [i for i, e in enumerate(excs) if e is raised]
-            out["raised"] = ids[0] if ids else "other: %s %s" % (type(raised).__name__, str(raised)[:80])
         return out
 
     def model_arg(self, case):
@@ -256,7 +308,7 @@ class CHECK(Check):
             exp_out = "".join(b[1] for b in (behs if k is None else behs[:k]))
             if case["buffer"]:
                 if obs.get("buf_closed"):
-                    return "the caller-supplied buffer was closed"
+                    return "the caller-supplied buffer was closed (destination kind: %s)" % case.get("dest", "-")
                 if obs["fw_opened"] != 0:
                     return "the framework opened a handle although a buffer was supplied"
                 if obs["buf_pos"] != len(exp_out):
@@ -270,9 +322,12 @@ class CHECK(Check):
 
     def classify(self, case):
         k = next((i for i, b in enumerate(case["behs"]) if b[0]), None)
-        return {"fam_" + case["fam"]: 1, "binary" if case["binary"] else "text": 1, "read" if case["read"] else "write": 1,
-                "buffer" if case["buffer"] else "path": 1, "n_%d" % len(case["behs"]): 1,
-                "fault_at_%s" % ("none" if k is None else k): 1}
+        d = {"fam_" + case["fam"]: 1, "binary" if case["binary"] else "text": 1, "read" if case["read"] else "write": 1,
+             "buffer" if case["buffer"] else "path": 1, "n_%d" % len(case["behs"]): 1,
+             "fault_at_%s" % ("none" if k is None else k): 1}
+        if case["buffer"] and not case["read"]:
+            d["caller_dest_" + case.get("dest", "by_parity")] = 1
+        return d
 
     def signature(self, case, why):
         import re
